@@ -260,9 +260,11 @@ pub fn run_case(ctx: &Ctx, prog: &Program, tuples: &[Vec<i64>]) -> CaseResult {
 pub fn check(ctx: &Ctx) -> i32 {
     let start = Instant::now();
     let mut ev = Evidence::default();
-    ev.rule = "focused Core programs obtained from generated Fun programs (all constructs, effects anywhere); every cut is classified by (producer shape | consumer shape @ type class) and the histogram is reported; oracle: Core machine on the FsProg vs named AxCut machine on shrink_prog's output (output, result, termination), plus: free variables of every definition are parameters, lifted definitions' parameters are exactly their free variables, binders unique along every path. Non-trivial: the program contains a critical pair or unknown cut at a type with >= 2 xtors or a known cut (constructor against case / cocase against destructor); distinct by hash of (source, arguments).".into();
+    ev.rule = "focused Core programs obtained from generated Fun programs (all constructs, effects anywhere); every cut is classified by (producer shape | consumer shape @ type class) and the histogram is reported; oracle: Core machine on the FsProg vs named AxCut machine on shrink_prog's output (output, result, termination), plus: free variables of every definition are parameters, lifted definitions' parameters are exactly their free variables, binders unique along every path. Non-trivial: the program contains a critical pair or unknown cut at a type with >= 2 xtors or a known cut (constructor against case / cocase against destructor); distinct by hash of (source, arguments). Second domain: focused programs obtained by Prog::focus() from directly generated well-typed Core programs (gen_core, see C03), which contain every cut shape at every kind of type (reported as core-cut:* classes); same oracle.".into();
     ev.assumptions = vec!["Core and AxCut machines as in DESIGN.md 3.2/3.3".into()];
     let n = ctx.tier.pick(6000, 400000);
+    // debugging aid: VERIF_ONLY=gencore skips the first domain
+    let n = if std::env::var("VERIF_ONLY").as_deref() == Ok("gencore") { 0 } else { n };
     let run = |b: &[u8]| {
         let c = decode(ctx, b);
         run_case(ctx, &c.prog, &c.tuples)
@@ -275,10 +277,24 @@ pub fn check(ctx: &Ctx) -> i32 {
         eprintln!("{}", f2.summary);
         report.violations.push(write_replay_with(ctx, "shrink", &bytes, &f2, fun_case_json(&c2)));
     }
+    // second domain: Core programs generated directly
+    if report.violations.is_empty() {
+        use super::corecase::{self, Mode};
+        let n2 = ctx.tier.pick(6000, 400000);
+        let run2 = |b: &[u8]| corecase::run(ctx, Mode::Shrink, b);
+        let out2 = drive(&mut ev, ctx.seed, 104, n2, 60, 1500, 300, &run2);
+        if let Some((bytes, f)) = out2.failure {
+            eprintln!("{}", f.summary);
+            report.violations.push(write_replay(ctx, "gencore", &bytes, &f));
+        }
+    }
     finish(ctx, &ev, &report, start)
 }
 
-pub fn replay(ctx: &Ctx, _sub: &str, bytes: &[u8], case: &serde_json::Value) -> CaseResult {
+pub fn replay(ctx: &Ctx, sub: &str, bytes: &[u8], case: &serde_json::Value) -> CaseResult {
+    if sub.starts_with("gencore") {
+        return super::corecase::run(ctx, super::corecase::Mode::Shrink, bytes);
+    }
     let c = fun_case_from_json(case).unwrap_or_else(|| decode(ctx, bytes));
     run_case(ctx, &c.prog, &c.tuples)
 }
